@@ -15,7 +15,9 @@ Three parts, each tied to the code by its own engine:
    B→A for `Reply` frames, the sending session routing the reply into the proxy's mailbox,
    callers abandoning calls, the target exiting, the link being cut.  (E-LTS, two real nodes)
 3. `Mirror` — the receiving session's processing of the control stream
-   (`Spawn`/`Terminate`/`PgJoin`/`PgLeave`, session close).  (E-LTS)
+   (`Spawn`/`Terminate`/`PgJoin`/`PgLeave`, session close); groups are keyed by scope AND group.  (E-LTS)
+4. `syncStream` — what the sending session emits about process groups: the initial scan over
+   `which_scopes_and_groups()` and then the forwarded change notifications.  (E-LTS)
 
 Core Lean only.
 -/
@@ -305,11 +307,14 @@ def Net.honest (reply : Nat → Nat) (n : Net) : Prop :=
 
 /-! ## 3. mirroring of the control stream -/
 
+/-- a process group is identified by (scope, group); the default scope is `""` -/
+abbrev GKey := String × String
+
 inductive Ctl where
   | spawn (pids : List Nat)
   | terminate (pids : List Nat)
-  | pgJoin (group : String) (pids : List Nat)
-  | pgLeave (group : String) (pids : List Nat)
+  | pgJoin (scope group : String) (pids : List Nat)
+  | pgLeave (scope group : String) (pids : List Nat)
   /-- the session stops: every proxy is a child of it -/
   | close
   deriving Repr, DecidableEq
@@ -317,23 +322,31 @@ inductive Ctl where
 structure Mirror where
   /-- `remote_actors` keys -/
   proxies : List Nat := []
-  /-- (group, pid): group memberships of the proxies -/
-  members : List (String × Nat) := []
+  /-- ((scope, group), pid): group memberships of the proxies -/
+  members : List (GKey × Nat) := []
   deriving Repr, DecidableEq
 
 def Mirror.ensure (m : Mirror) (pids : List Nat) : Mirror :=
   { m with proxies := pids.foldl (fun ps p => if ps.contains p then ps else ps ++ [p]) m.proxies }
 
+/-- `pg::join_scoped`: every pid not yet in the group is added -/
+def joinAll (k : GKey) (pids : List Nat) (ms : List (GKey × Nat)) : List (GKey × Nat) :=
+  pids.foldl (fun ms p => if ms.contains (k, p) then ms else ms ++ [(k, p)]) ms
+
+/-- `pg::leave_scoped` -/
+def leaveAll (k : GKey) (pids : List Nat) (ms : List (GKey × Nat)) : List (GKey × Nat) :=
+  ms.filter fun e => !(e.1 == k && pids.contains e.2)
+
 def Mirror.step (m : Mirror) : Ctl → Mirror
   | .spawn pids => m.ensure pids
   | .terminate pids =>
-    -- the proxy is removed and stopped; a stopping actor leaves every group
+    -- the proxy is removed and stopped; a stopping actor leaves every group of every scope
     { proxies := m.proxies.filter (!pids.contains ·), members := m.members.filter (!pids.contains ·.2) }
-  | .pgJoin g pids =>
+  | .pgJoin s g pids =>
     let m := m.ensure pids
-    { m with members := pids.foldl (fun ms p => if ms.contains (g, p) then ms else ms ++ [(g, p)]) m.members }
-  | .pgLeave g pids =>
-    { m with members := m.members.filter fun e => !(e.1 == g && pids.contains e.2) }
+    { m with members := joinAll (s, g) pids m.members }
+  | .pgLeave s g pids =>
+    { m with members := leaveAll (s, g) pids m.members }
   | .close => {}
 
 def Mirror.run (m : Mirror) (cs : List Ctl) : Mirror := cs.foldl Mirror.step m
@@ -342,23 +355,71 @@ def Mirror.run (m : Mirror) (cs : List Ctl) : Mirror := cs.foldl Mirror.step m
 mentioning it decides (`some true` = advertised, `some false` = terminated / closed) -/
 def verdict (pid : Nat) (prev : Option Bool) : Ctl → Option Bool
   | .spawn pids => if pids.contains pid then some true else prev
-  | .pgJoin _ pids => if pids.contains pid then some true else prev
+  | .pgJoin _ _ pids => if pids.contains pid then some true else prev
   | .terminate pids => if pids.contains pid then some false else prev
   | .close => some false
-  | .pgLeave _ _ => prev
+  | .pgLeave _ _ _ => prev
 
 /-- `pid` is advertised and not (yet) terminated according to the control stream -/
 def advertised (pid : Nat) (cs : List Ctl) : Bool := cs.foldl (verdict pid) none == some true
 
-/-- the same for membership of `pid` in group `g` -/
-def verdictG (g : String) (pid : Nat) (prev : Option Bool) : Ctl → Option Bool
-  | .pgJoin g' pids => if g' == g && pids.contains pid then some true else prev
-  | .pgLeave g' pids => if g' == g && pids.contains pid then some false else prev
+/-- the same for membership of `pid` in the group `k = (scope, group)` -/
+def verdictG (k : GKey) (pid : Nat) (prev : Option Bool) : Ctl → Option Bool
+  | .pgJoin s g pids => if (s, g) == k && pids.contains pid then some true else prev
+  | .pgLeave s g pids => if (s, g) == k && pids.contains pid then some false else prev
   | .terminate pids => if pids.contains pid then some false else prev
   | .close => some false
   | .spawn _ => prev
 
-def announced (g : String) (pid : Nat) (cs : List Ctl) : Bool := cs.foldl (verdictG g pid) none == some true
+def announced (k : GKey) (pid : Nat) (cs : List Ctl) : Bool := cs.foldl (verdictG k pid) none == some true
+
+/-! ## 4. the sending session: initial sync + forwarded notifications
+
+`NodeSession::after_authenticated` subscribes to all scopes / all groups and then walks
+`pg::which_scopes_and_groups()`: for every key (scope, group) it sends one `PgJoin{scope, group,
+get_scoped_local_members(scope, group)}` (nothing for a group without remotable local members).
+Afterwards every `GroupChangeMessage::{Join,Leave}(scope, group, actors)` is forwarded as the
+`PgJoin` / `PgLeave` of the same scope and group, in order; an exiting actor is announced by the
+pid monitor as `Terminate` (its `Leave` notifications, which travel as well, change nothing
+once the proxy is gone, and the `Terminate` removes every membership if it comes first). -/
+
+/-- the process-group memberships of the remotable local actors: ((scope, group), pid) -/
+abbrev Memb := List (GKey × Nat)
+
+inductive PgEv where
+  | join (scope group : String) (pids : List Nat)
+  | leave (scope group : String) (pids : List Nat)
+  /-- the actor exits: it leaves every group of every scope -/
+  | exit (pid : Nat)
+  deriving Repr, DecidableEq
+
+/-- the local `pg` -/
+def Memb.apply (L : Memb) : PgEv → Memb
+  | .join s g pids => joinAll (s, g) pids L
+  | .leave s g pids => leaveAll (s, g) pids L
+  | .exit pid => L.filter (![pid].contains ·.2)
+
+/-- what the session forwards for a local change -/
+def PgEv.note : PgEv → Ctl
+  | .join s g pids => .pgJoin s g pids
+  | .leave s g pids => .pgLeave s g pids
+  | .exit pid => .terminate [pid]
+
+/-- `get_scoped_local_members(scope, group)` -/
+def localMembers (L : Memb) (k : GKey) : List Nat := (L.filter (·.1 == k)).map (·.2)
+
+/-- `which_scopes_and_groups()`: every key with a member (in any order, duplicates harmless) -/
+def Memb.keys (L : Memb) : List GKey := (L.map (·.1)).eraseDups
+
+/-- the `PgJoin`s of the initial scan over `keys` -/
+def initialSync (keys : List GKey) (L : Memb) : List Ctl :=
+  keys.filterMap fun k =>
+    let ms := localMembers L k
+    if ms.isEmpty then none else some (.pgJoin k.1 k.2 ms)
+
+/-- everything the peer receives about groups: the initial scan of `L0`, then the notifications -/
+def syncStream (keys : List GKey) (L0 : Memb) (evs : List PgEv) : List Ctl :=
+  initialSync keys L0 ++ evs.map PgEv.note
 
 end Remote
 
